@@ -31,13 +31,13 @@ pub open spec fn authority_rule(owner: Pubkey, delegate: Option<Pubkey>, delegat
 }
 pub open spec fn copt(c: COption<Pubkey>) -> Option<Pubkey> { match c { COption::None => None, COption::Some(k) => Some(k) } }
 
-//@ fn util/shared.rs validate_owner -> r
+//@ fn util/shared.rs validate_owner -> r canary
     ensures
         r is Ok <==> (*expected_owner == *owner_account_info.key && owner_account_info.is_signer),
         r is Err ==> r == err::<()>(ErrorCode::MissingOrInvalidDelegate),
 //@ end
 
-//@ fn util/shared.rs verify_position_authority -> r
+//@ fn util/shared.rs verify_position_authority -> r canary
     ensures
         r is Ok ==> authority_rule(position_token_account.owner, copt(position_token_account.delegate), position_token_account.delegated_amount, *position_authority.info.key, position_authority.info.is_signer),
         // with the right key but no signature, or a wrong key, it fails
@@ -50,13 +50,13 @@ pub open spec fn copt(c: COption<Pubkey>) -> Option<Pubkey> { match c { COption:
     ensures r == position_token_account.data.frozen,
 //@ end
 
-//@ fn util/shared.rs verify_position_bundle_authority -> r
+//@ fn util/shared.rs verify_position_bundle_authority -> r canary
     ensures
         r is Ok ==> authority_rule(position_bundle_token_account.owner, copt(position_bundle_token_account.delegate), position_bundle_token_account.delegated_amount, *position_bundle_authority.info.key, position_bundle_authority.info.is_signer),
         !position_bundle_authority.info.is_signer ==> r is Err,
 //@ end
 
-//@ fn util/shared.rs verify_position_authority_interface -> r
+//@ fn util/shared.rs verify_position_authority_interface -> r canary
     ensures
         r is Ok ==> authority_rule(position_token_account.data.owner, copt(position_token_account.data.delegate), position_token_account.data.delegated_amount, *position_authority.info.key, position_authority.info.is_signer),
         !position_authority.info.is_signer ==> r is Err,
@@ -73,7 +73,7 @@ use crate::anchor_shim::Pubkey;
 use crate::authority::authority_rule;
 //@ tags C04 C12
 //@ assume pinocchio shims: AccountInfo (key(), is_signer(), is_writable()) and MemoryMappedTokenAccount (owner(), delegate(), delegated_amount()) are opaque views with assumed accessor specs; UnifiedError keeps only the whirlpool/anchor error code
-pub enum AnchorErrorCode { AccountNotEnoughKeys, AccountNotSigner, AccountNotMutable, InvalidProgramId, ConstraintAddress, ConstraintRaw, Other }
+pub enum AnchorErrorCode { AccountNotEnoughKeys, AccountNotSigner, AccountNotMutable, InvalidProgramId, ConstraintAddress, ConstraintRaw, AccountOwnedByWrongProgram, AccountDiscriminatorNotFound, AccountDiscriminatorMismatch, AccountNotInitialized, Other }
 pub enum UnifiedError { Whirlpool(WhirlpoolErrorCode), Anchor(AnchorErrorCode), Pinocchio }
 pub type Result<T> = core::result::Result<T, UnifiedError>;
 impl vstd::std_specs::convert::FromSpecImpl<WhirlpoolErrorCode> for UnifiedError {
@@ -97,6 +97,12 @@ impl AccountInfo {
     pub fn is_writable(&self) -> (r: bool) ensures r == self.writable { self.writable }
     pub fn owner(&self) -> (r: &Pubkey) ensures *r == self.owner_k { &self.owner_k }
     pub fn is_owned_by(&self, program: &Pubkey) -> (r: bool) ensures r == (self.owner_k == *program) { self.owner_k == *program }
+    /// the account's data bytes (uninterpreted; the runtime's borrow bookkeeping is not modelled)
+    pub uninterp spec fn data(&self) -> Seq<u8>;
+    #[verifier::external_body]
+    pub fn data_len(&self) -> (r: usize) ensures r == self.data().len() { unimplemented!() }
+    #[verifier::external_body]
+    pub fn try_borrow_data(&self) -> (r: Result<&[u8]>) ensures r matches Ok(b) ==> b@ == self.data() { unimplemented!() }
 }
 // the real #[repr(C)] view of an SPL token account and its accessors (C04 reads owner / delegate / delegated amount; C15 / C18 read mint, amount and the frozen state)
 pub type BytesU64 = [u8; 8];
@@ -132,13 +138,13 @@ impl MemoryMappedTokenAccount {
 //@ end
 }
 
-//@ fn pinocchio/ported/util_shared.rs pino_validate_owner -> r
+//@ fn pinocchio/ported/util_shared.rs pino_validate_owner -> r canary
     ensures
         r is Ok <==> (*expected_owner == owner_account_info.k && owner_account_info.signer),
         r is Err ==> r == Err::<(), UnifiedError>(UnifiedError::Whirlpool(WhirlpoolErrorCode::MissingOrInvalidDelegate)),
 //@ end
 
-//@ fn pinocchio/ported/util_shared.rs pino_verify_position_authority -> r
+//@ fn pinocchio/ported/util_shared.rs pino_verify_position_authority -> r canary
     ensures
         r is Ok ==> authority_rule(position_token_account.owner_k(), position_token_account.delegate_k(), position_token_account.delegated(), position_authority_info.k, position_authority_info.signer),
         !position_authority_info.signer ==> r is Err,
@@ -146,14 +152,9 @@ impl MemoryMappedTokenAccount {
         (position_token_account.delegate_k() == Some(position_authority_info.k) && position_token_account.delegated() != 1) ==> r is Err,
 //@ end
 
-//@ assume program-id constants (pinocchio constants::address) are replaced by placeholder values that differ pairwise; only their identity is used
 pub mod address {
     use crate::anchor_shim::Pubkey;
-    pub const TOKEN_PROGRAM_ID: Pubkey = Pubkey([1u8, 0, 0, 0, 0, 0, 0, 0, 0, 0, 0, 0, 0, 0, 0, 0, 0, 0, 0, 0, 0, 0, 0, 0, 0, 0, 0, 0, 0, 0, 0, 0]);
-    pub const TOKEN_2022_PROGRAM_ID: Pubkey = Pubkey([2u8, 0, 0, 0, 0, 0, 0, 0, 0, 0, 0, 0, 0, 0, 0, 0, 0, 0, 0, 0, 0, 0, 0, 0, 0, 0, 0, 0, 0, 0, 0, 0]);
-    pub const MEMO_PROGRAM_ID: Pubkey = Pubkey([3u8, 0, 0, 0, 0, 0, 0, 0, 0, 0, 0, 0, 0, 0, 0, 0, 0, 0, 0, 0, 0, 0, 0, 0, 0, 0, 0, 0, 0, 0, 0, 0]);
-    pub const SYSTEM_PROGRAM_ID: Pubkey = Pubkey([4u8, 0, 0, 0, 0, 0, 0, 0, 0, 0, 0, 0, 0, 0, 0, 0, 0, 0, 0, 0, 0, 0, 0, 0, 0, 0, 0, 0, 0, 0, 0, 0]);
-    pub const WHIRLPOOL_PROGRAM_ID: Pubkey = Pubkey([5u8, 0, 0, 0, 0, 0, 0, 0, 0, 0, 0, 0, 0, 0, 0, 0, 0, 0, 0, 0, 0, 0, 0, 0, 0, 0, 0, 0, 0, 0, 0, 0]);
+//@ pubkey pinocchio/constants/address.rs WHIRLPOOL_PROGRAM_ID TOKEN_PROGRAM_ID TOKEN_2022_PROGRAM_ID MEMO_PROGRAM_ID SYSTEM_PROGRAM_ID
 }
 pub struct AccountIterator<'a> {
     pub accounts: &'a [AccountInfo],
